@@ -91,11 +91,12 @@ def _canonicalise(tree: ast.AST) -> None:
                     _flatten(sub, elif_arm=(fld == "orelse" and isinstance(st, ast.If) and len(sub) == 1 and isinstance(sub[0], ast.If)))
             for h in getattr(st, "handlers", []) or []:
                 _flatten(h.body)
-            if isinstance(st, ast.If) and st.orelse and not (len(st.orelse) == 1 and isinstance(st.orelse[0], ast.If)) and st.body:
-                if isinstance(st.body[-1], _EXIT):
-                    rest, st.orelse = st.orelse, []
-                    blk[i + 1:i + 1] = rest
-                elif isinstance(st.orelse[-1], _EXIT) and not elif_arm:
+            if isinstance(st, ast.If) and st.orelse and st.body and isinstance(st.body[-1], _EXIT) and not elif_arm:
+                # (also when the else part is an elif chain: `if A: exit elif B: ..` == `if A: exit` + `if B: ..`)
+                rest, st.orelse = st.orelse, []
+                blk[i + 1:i + 1] = rest
+            elif isinstance(st, ast.If) and st.orelse and not (len(st.orelse) == 1 and isinstance(st.orelse[0], ast.If)) and st.body:
+                if isinstance(st.orelse[-1], _EXIT) and not elif_arm:
                     rest = st.body
                     st.body, st.orelse = st.orelse, []
                     st.test = ast.copy_location(ast.UnaryOp(op=ast.Not(), operand=st.test), st.test)
